@@ -38,7 +38,7 @@ COMPONENTS = {
 ASSUMPTIONS = [
     'output_path == input_path is not generated (the caller asked for the overwrite)',
     'sqlite: "only identifiers made of letters, digits and underscore are ever sent" is observed on the statement trace: every statement must match SELECT * FROM <ident>; (plus the CLI\'s own sqlite_master listing)',
-    'pandas / sqlite3 internals are trusted to report their own state (DataFrame.equals, total_changes)',
+    'pandas / sqlite3 internals are trusted to report their own state (DataFrame.equals plus a per-cell (type, repr) snapshot, total_changes, in_transaction)',
 ]
 
 HOSTILE = ['ta\n', 'tb\n', 't;DROP/**/TABLE/**/ta;--', '"ta"', 'ta)', 'main.ta', '[ta]', 'ta--', 'taé', 'sqlite_master', '', 'ta;', "ta'", 'ta/**/', 'tb,ta', 'TA', 'ta_1', 'ta x', 'nosuch']
@@ -116,6 +116,8 @@ def generate(rng, tier, idx):
         world['header_style'] = 'hostile'
     if rng.random() < 0.08:
         world['bom_first'] = True
+    if world['header'] and rng.random() < 0.1:
+        world['header_len_delta'] = rng.choice([1, -1])
     if not world['df_variety'] and rng.random() < 0.35:
         # all-object frames with missing-value markers of every kind (what read_csv(dtype=object) / read_sql hand over)
         world['df_gaps'] = [[rng.randrange(8), rng.randrange(3), rng.choice(['nan', 'na', 'nat', 'none', 'nan']), rng.choice(['A', 'A', 'B'])] for _ in range(rng.choice([1, 2, 3]))]
@@ -146,6 +148,8 @@ def generate(rng, tier, idx):
                 op['fault'] = {'kind': 'hostile_join_id', 'ident': ident}
             else:
                 op['fault'] = {'kind': 'hostile_input_id', 'ident': ident}
+        if front == 'iter' and rng.random() < 0.4:
+            op['iter_style'] = rng.choice(['subclass', 'own'])
         if front == 'csv':
             op['out_to'] = rng.choice(['file', 'stdout'])
         if front == 'sqlite' and rng.random() < 0.3:
@@ -174,6 +178,46 @@ def deep(x):
     if isinstance(x, tuple):
         return tuple(deep(v) for v in x)
     return x
+
+
+def make_caller_iterator(t, style, table, column_names):
+    """The input iterator a caller passes to rbql.query(): the stock TableIterator, a subclass of it, or a class of the caller's
+    own that hands out the rows of the caller's table (the documented extension point: it owes RBQL no copies)."""
+    if style == 'subclass':
+        class CallerTableIterator(t.engine.TableIterator):
+            pass
+        return CallerTableIterator(table, column_names)
+    if style == 'own':
+        engine = t.engine
+
+        class CallerIterator(engine.RBQLInputIterator):
+            def __init__(self, rows, names):
+                self.rows = rows
+                self.names = names
+                self.pos = 0
+
+            def get_variables_map(self, query_text):
+                variable_map = dict()
+                engine.parse_basic_variables(query_text, 'a', variable_map)
+                engine.parse_array_variables(query_text, 'a', variable_map)
+                if self.names is not None:
+                    engine.parse_attribute_variables(query_text, 'a', self.names, 'column names list', variable_map)
+                    engine.parse_dictionary_variables(query_text, 'a', self.names, variable_map)
+                return variable_map
+
+            def get_record(self):
+                if self.pos >= len(self.rows):
+                    return None
+                self.pos += 1
+                return self.rows[self.pos - 1]
+
+            def get_warnings(self):
+                return []
+
+            def get_header(self):
+                return self.names
+        return CallerIterator(table, column_names)
+    return t.engine.TableIterator(table, column_names)
 
 
 def df_cells(df):
@@ -221,6 +265,15 @@ class World(object):
                 self.B[0] = self.B[0][:2]
                 if len(self.B) > 1:
                     self.B[-1] = type(self.B[-1])(list(self.B[-1]) + ['w'])
+        if spec['header'] and spec.get('header_len_delta'):
+            # a column-name list that does not fit the records (one name too many / one too few): the query fails, and a
+            # failing query must leave the lists it complains about alone too
+            if spec['header_len_delta'] > 0:
+                self.header = self.header + ['extra']
+                self.jheader = self.jheader + ['jextra']
+            else:
+                self.header = self.header[:-1]
+                self.jheader = self.jheader[:-1]
         if spec.get('bom_first'):
             # text decoded as utf-8 rather than utf-8-sig: the very first string of the table (or of its column names) starts with U+FEFF
             if self.header:
@@ -279,14 +332,15 @@ class World(object):
         # pandas
         import pandas
         self.pandas = pandas
-        self.dfA = pandas.DataFrame([list(r) for r in rows], columns=self.header)
+        fit = lambda names, n: None if names is None else (list(names) + ['c%d' % i for i in range(n)])[:n]      # (a frame's labels always fit its data)
+        self.dfA = pandas.DataFrame([list(r) for r in rows], columns=fit(self.header, 3))
         if spec.get('df_variety'):
             # a numeric column, a non-default index and (for header worlds) an extra float column
             self.dfA[3 if self.header is None else 'num'] = list(range(len(rows)))
             self.dfA.index = [chr(ord('z') - i) for i in range(len(rows))]
             if self.header is not None:
                 self.dfA['ratio'] = [i / 2.0 for i in range(len(rows))]
-        self.dfB = pandas.DataFrame([list(r) for r in jrows], columns=self.jheader) if jrows else pandas.DataFrame([['nokey', 'J0', 'm']], columns=self.jheader)
+        self.dfB = pandas.DataFrame([list(r) for r in jrows], columns=fit(self.jheader, 3)) if jrows else pandas.DataFrame([['nokey', 'J0', 'm']], columns=fit(self.jheader, 3))
         if spec.get('df_variety') and self.header is None:
             # non-string column labels on both frames, a named column axis on the join frame
             self.dfA.columns = [11, 12, 13, 14][:len(self.dfA.columns)]
@@ -469,7 +523,7 @@ def run_op(t, world, op):
         elif front == 'iter':
             out = []
             produced['py_rows'] = out
-            it = t.engine.TableIterator(world.A, world.header)
+            it = make_caller_iterator(t, op.get('iter_style'), world.A, world.header)
             wr = RefusingWriter(out, fault['at']) if fault and fault['kind'] == 'refuse' else t.engine.TableWriter(out)
             reg = t.engine.ListTableRegistry([t.engine.ListTableInfo('B', world.B, world.jheader)])
             t.engine.query(op['query'], it, wr, warnings, reg)
@@ -639,7 +693,7 @@ def execute(sc):
             bump(counters, 'probe.source_opened_writable', world.writable_source_opens)
     finally:
         world.close()
-    res['digest'] = core.digest(digest_parts)
+    res['digest'] = core.digest(core.hash_neutral(digest_parts))
     return res
 
 
@@ -688,6 +742,11 @@ def shrinks(sc):
         c = dict(sc)
         c['world'] = dict(w)
         c['world']['df_gaps'] = gaps[:i] + gaps[i + 1:]
+        yield c
+    if w.get('header_len_delta'):
+        c = dict(sc)
+        c['world'] = dict(w)
+        c['world'].pop('header_len_delta')
         yield c
     if w.get('bom_first'):
         c = dict(sc)
